@@ -9,7 +9,7 @@ from engine.sched import Sched, SchedThread, Deadlock
 
 import eliot
 from eliot import _output, _action, start_action, log_message, current_action, preserve_context
-from eliot._output import Logger
+from eliot._output import Logger, FileDestination
 from eliot.parse import Parser
 from eliot._action import WrittenAction
 
@@ -44,6 +44,30 @@ def canon(node):
 
 def forest_canon(messages):
     return tuple(sorted((canon(t.root()) for t in Parser.parse_stream(messages)), key=repr)), all(t.is_complete() for t in Parser.parse_stream(messages))
+
+
+class _YieldingFile(object):
+    """Binary file object; every write() is atomic, a thread switch may follow it."""
+
+    sched = None
+
+    def __init__(self):
+        self.chunks = []
+
+    def write(self, data):
+        if not isinstance(data, bytes):
+            raise TypeError("binary file")
+        if data:
+            self.chunks.append(bytes(data))
+            if self.sched is not None:
+                self.sched.yield_point("after file.write")
+
+    def writelines(self, lines):
+        for line in lines:
+            self.write(line)
+
+    def flush(self):
+        pass
 
 
 class Stack(object):
@@ -136,11 +160,19 @@ def check_placement(ctx, received):
 def body_E1(ctx):
     sh = ctx.shard
     received = []
-    Logger._destinations.add(received.append)
+    outfile = None
+    if sh.get("file_dest"):
+        # the threads share one JSON file destination; the scheduler may switch after any file.write()
+        outfile = _YieldingFile()
+        Logger._destinations.add(FileDestination(file=outfile))
+    else:
+        Logger._destinations.add(received.append)
     nworkers = sh.get("workers", 2)
     kinds = [ctx.choose(4 if sh.get("handover", 1) else 3, "program of worker %d" % i) for i in range(nworkers)]
     via = [ctx.choose(2, "plain thread / preserve_context %d" % i) if sh.get("preserve", 1) else 0 for i in range(nworkers)]
     sched = Sched(ctx, watch={ACTION_FILE: ENTRY_POINTS}, preemptions=sh.get("P", 2), granularity="call")
+    if outfile is not None:
+        outfile.sched = sched
     main_stack = Stack(ctx, "main")
     stacks = [Stack(ctx, "w%d" % i) for i in range(nworkers)]
 
@@ -200,6 +232,16 @@ def body_E1(ctx):
     for w in sched.workers:
         if w.exc is not None:
             raise w.exc
+    if outfile is not None:
+        blob = b"".join(outfile.chunks)
+        ctx.check(blob.endswith(b"\n"), "the shared file does not end with a newline")
+        for ln in blob.split(b"\n")[:-1]:
+            try:
+                d = json.loads(ln.decode("utf-8"))
+            except Exception as e:
+                ctx.fail("a line of the file shared by the threads is not JSON: %r (%s) (%s)" % (ln[:160], e, sched.render()))
+            ctx.check(isinstance(d, dict), "a line of the shared file is not a JSON object: %r", ln[:160])
+            received.append(d)
     # placement: an action/message of who=X sits under an action of who=X, except a worker's
     # outermost items: top-level (plain thread) or under eliot:remote_task under main:A (preserve_context)
     starts = {}
